@@ -483,6 +483,10 @@ def _request(session, method, url, timeout=(None, None), **kwargs):
         cause = error.args[0] if error.args else None
         if isinstance(cause, ReadTimeoutError):
             raise cause from error
+        # Running out of read retries while waiting for the response header also ends up
+        # here, but that is a server glitch like any other, not an unreachable server
+        if isinstance(cause, MaxRetryError) and isinstance(cause.reason, (ReadTimeoutError, ProtocolError)):
+            raise cause from error
         raise
 
 
